@@ -161,7 +161,8 @@ def toy_twin(name) -> Dom:
     """same equation and group order as toy(name) but base point 2*G: a different Curve"""
     base = toy(name[:-5])
     G2 = rec.dbl(base.c, base.G)
-    lib = make_lib_curve(name, base.c, G2, base.n, 1, (1, 3, 9999, 2))
+    # same OID as the parent on purpose: curve identity must not be decided by OID or by equation alone
+    lib = make_lib_curve(name, base.c, G2, base.n, 1, base.lib.oid)
     return Dom(name, lib, toy=True, h=1)
 
 
@@ -470,3 +471,13 @@ def length_mutations(seed: bytes):
         if seed[tp] == 0x03 and cl:
             for u in range(1, 9):
                 yield "bits-unused", seed[:cp] + bytes([u]) + seed[cp + 1 :]
+            for content in (b"\x00", b"\x00\x00", b"\x00\x04", b"\x00\x02", b"\x00\x06", b"\x07", b"\x00\x04\x01"):
+                yield "bits-degenerate", _resize(seed, tp, lp, ll, cp, cl, content)
+        if seed[tp] == 0x04 and cl:
+            for content in (b"", b"\x00", b"\x30\x00", b"\x01"):
+                yield "octets-degenerate", _resize(seed, tp, lp, ll, cp, cl, content)
+        if seed[tp] == 0x02 and cl:
+            for content in (b"\x00", b"\x02", b"\x7f", b"\x00\x80"):
+                yield "int-small", _resize(seed, tp, lp, ll, cp, cl, content)
+        if seed[tp] in (0x30, 0xA0, 0xA1) and cl:
+            yield "constructed-empty", _resize(seed, tp, lp, ll, cp, cl, b"")
